@@ -235,9 +235,18 @@ def check_pair(ctx, key, da, db, mclass, shape, ma, mb):
             ma = [0.0] + list(ma[1:])
         if db[0] == 'number' and arr_b:
             mb = [0.0] + list(mb[1:])
-    A = make(ma, da, arr_a, via_ctor=ctor, route=ra)
-    B = make(mb, db, arr_b, as_int=(len(key) % 2 == 0), via_ctor=not ctor,
-             route=rb)
+    oa = observe(make, ma, da, arr_a, via_ctor=ctor, route=ra)
+    ob = observe(make, mb, db, arr_b, as_int=(len(key) % 2 == 0),
+                 via_ctor=not ctor, route=rb)
+    for o_, d_, m_ in ((oa, da, ma), (ob, db, mb)):
+        if 'exc' in o_:
+            ctx.violation('building a quantity (magnitude times unit / array '
+                          'constructor) raised %s' % o_['exc'],
+                          {'class': d_[0], 'unit': d_[1], 'magnitudes': m_,
+                           'shape': shape, 'key': key},
+                          {'msg': o_['msg']})
+            return
+    A, B = oa['ok'], ob['ok']
     ctx.klass('unit routes: %s | %s' % (ROUTES[ra], ROUTES[rb]))
     a_is_q = da[2] is not None
     b_is_q = db[2] is not None
